@@ -1,7 +1,9 @@
 (* C05 — gridded pieces land in the cells the path actually crosses.  Property theorems only.
    Real-number semantics of coq/model/C04_Model.v.  Cells are closed: cell c of an axis with lines g is
-   [g[c], g[c+1]]; [inside g x] means g[0] < x <= g[last] (a point exactly on the lowest line is the
-   subject of F20, see the two theorems at the end). *)
+   [g[c], g[c+1]]; [inside g x] means g[0] < x <= g[last]; [okx clamp g x] = inside g x, or — when the index is
+   clamped (clamp = true, the repaired code) — anywhere in the closed range g[0] <= x <= g[last].  So with the
+   clamp the theorems cover points exactly on the lowest line: the point inserted at longitude -pi by the
+   antimeridian split on a global grid, a pole on a grid starting at -pi/2, altitude 0. *)
 From Coq Require Import ZArith List Bool Reals Lra.
 From AV Require Import lib.Num model.C04_Model proofs.C04_Proofs proofs.C05_Sorting proofs.C05_Cells proofs.C05_Proofs.
 Import ListNotations.
@@ -13,7 +15,7 @@ Local Open Scope R_scope.
 Theorem C05_piece_in_attributed_cell :
   forall clamp (glat glon : list R) (lat0 lon0 lat1 lon1 : R),
     incr glat -> incr glon ->
-    inside glat lat0 -> inside glat lat1 -> inside glon lon0 -> inside glon lon1 ->
+    okx clamp glat lat0 -> okx clamp glat lat1 -> okx clamp glon lon0 -> okx clamp glon lon1 ->
     @seg_geometry RNum clamp glat glon (lat0, lon0) (lat1, lon1)
       = (cells clamp glat glon lat0 lon0 lat1 lon1, chain clamp glat glon lat0 lon0 lat1 lon1) /\
     Forall2 (piece_in_cell glat glon)
@@ -37,7 +39,7 @@ Qed.
 Theorem C05_cells_in_path_order :
   forall clamp (glat glon : list R) (lat0 lon0 lat1 lon1 : R),
     incr glat -> incr glon ->
-    inside glat lat0 -> inside glat lat1 -> inside glon lon0 -> inside glon lon1 ->
+    okx clamp glat lat0 -> okx clamp glat lat1 -> okx clamp glon lon0 -> okx clamp glon lon1 ->
     mono (map fst (chain clamp glat glon lat0 lon0 lat1 lon1)) /\
     mono (map snd (chain clamp glat glon lat0 lon0 lat1 lon1)).
 Proof. exact chain_monotone. Qed.
@@ -48,7 +50,7 @@ Print Assumptions C05_cells_in_path_order.
 Theorem C05_chain_points_on_segment :
   forall clamp (glat glon : list R) (lat0 lon0 lat1 lon1 : R),
     incr glat -> incr glon ->
-    inside glat lat0 -> inside glat lat1 -> inside glon lon0 -> inside glon lon1 ->
+    okx clamp glat lat0 -> okx clamp glat lat1 -> okx clamp glon lon0 -> okx clamp glon lon1 ->
     Forall (on_line lat0 lon0 lat1 lon1) (chain clamp glat glon lat0 lon0 lat1 lon1).
 Proof. exact chain_points_on_line. Qed.
 Print Assumptions C05_chain_points_on_segment.
@@ -58,7 +60,7 @@ Print Assumptions C05_chain_points_on_segment.
 Theorem C05_untouched_cells_get_nothing :
   forall clamp (glat glon : list R) (lat0 lon0 lat1 lon1 : R),
     incr glat -> incr glon ->
-    inside glat lat0 -> inside glat lat1 -> inside glon lon0 -> inside glon lon1 ->
+    okx clamp glat lat0 -> okx clamp glat lat1 -> okx clamp glon lon0 -> okx clamp glon lon1 ->
     forall c, In c (cells clamp glat glon lat0 lon0 lat1 lon1) ->
     exists p, on_line lat0 lon0 lat1 lon1 p /\
               Rmin lat0 lat1 <= fst p <= Rmax lat0 lat1 /\ Rmin lon0 lon1 <= snd p <= Rmax lon0 lon1 /\
@@ -69,7 +71,7 @@ Print Assumptions C05_untouched_cells_get_nothing.
 Theorem C05_reported_cell_holds_a_piece :
   forall clamp (glat glon : list R) (lat0 lon0 lat1 lon1 : R) c,
     incr glat -> incr glon ->
-    inside glat lat0 -> inside glat lat1 -> inside glon lon0 -> inside glon lon1 ->
+    okx clamp glat lat0 -> okx clamp glat lat1 -> okx clamp glon lon0 -> okx clamp glon lon1 ->
     In c (cells clamp glat glon lat0 lon0 lat1 lon1) ->
     exists ab, In ab (pairs (chain clamp glat glon lat0 lon0 lat1 lon1)) /\ piece_in_cell glat glon c ab.
 Proof. intros. apply reported_cell_holds_a_piece; assumption. Qed.
